@@ -25,6 +25,7 @@ use crypto_bigint::{
     BoxedUint, Concat, Limb, Monty, MultiExponentiate, MultiExponentiateBoundedExp, Odd, Pow, PowBoundedExp, Split, Uint,
 };
 use num_bigint::BigUint;
+use subtle::ConditionallySelectable;
 use num_traits::{One, Zero};
 use vmodel::*;
 
@@ -599,6 +600,28 @@ fn fixed_lincomb<const L: usize>(t: &mut Tape, c: &mut Case) -> CaseResult {
     let (mo, re) = monty_out(&r);
     v.check("Monty-generic lincomb_vartime (MontyForm)", &x, &mo, &re, false)?;
     boxed_lincomb_forms(&mut v, &x, &lc)?;
+    // the same terms with parameter sets and values that went through constant-time selection against
+    // those of a decoy modulus (another leading-zero count: another accumulation window)
+    let dlz = gens::pick_lz(t, L);
+    let dml = gens::modulus_lz(t, L, dlz);
+    let decoy = total("MontyParams::new_vartime (decoy)", || MontyParams::<L>::new_vartime(odd_u::<L>(&dml)))?;
+    let (yes, no) = (subtle::Choice::from(1u8), subtle::Choice::from(0u8));
+    let sel = [
+        ("MontyParams::conditional_select(decoy, p, 1)", MontyParams::conditional_select(&decoy, &params, yes)),
+        ("MontyParams::conditional_select(p, decoy, 0)", MontyParams::conditional_select(&params, &decoy, no)),
+    ];
+    for (name, p) in sel.iter() {
+        let forms: Vec<(MontyForm<L>, MontyForm<L>)> = lc.terms.iter().map(|(a, b)| (MontyForm::new(&u_of::<L>(a), *p), MontyForm::new(&u_of::<L>(b), *p))).collect();
+        let refs: Vec<(&MontyForm<L>, &MontyForm<L>)> = forms.iter().map(|(a, b)| (a, b)).collect();
+        let r = total("MontyForm::lincomb_vartime (selected params)", || MontyForm::lincomb_vartime(&refs))?;
+        v.check(&format!("MontyForm::lincomb_vartime with {name}"), &x, &r.mont(), &r.retr(), false)?;
+    }
+    let dz = MontyForm::<L>::zero(decoy);
+    let forms_sel: Vec<(MontyForm<L>, MontyForm<L>)> =
+        forms.iter().map(|(a, b)| (MontyForm::conditional_select(&dz, a, yes), MontyForm::conditional_select(b, &dz, no))).collect();
+    let refs: Vec<(&MontyForm<L>, &MontyForm<L>)> = forms_sel.iter().map(|(a, b)| (a, b)).collect();
+    let r = total("MontyForm::lincomb_vartime (selected values)", || MontyForm::lincomb_vartime(&refs))?;
+    v.check("MontyForm::lincomb_vartime over values from MontyForm::conditional_select", &x, &r.mont(), &r.retr(), false)?;
     v.finish()
 }
 
